@@ -8,6 +8,7 @@ import (
 	"strings"
 	"testing"
 
+	"github.com/c2FmZQ/ech"
 	"pgregory.net/rapid"
 
 	"verif/harness/ev"
@@ -72,7 +73,41 @@ func errClass(err error) string {
 func drive(keys []*hello.Key, stream []byte, hrr []byte) connOutcome {
 	var o connOutcome
 	tr := wire.New(stream, io.EOF)
-	c, err := newConn(context.Background(), tr, echKeys(keys...))
+	// the key list reaches NewConn the way an application assembling it from two sources
+	// does: two WithKeys options, the first one a slice with spare capacity that the
+	// application keeps using for its other connections
+	all := echKeys(keys...)
+	split := (len(all) + 1) / 2
+	base := make([]ech.Key, split, split+3)
+	copy(base, all[:split])
+	var c *ech.Conn
+	err := guard(func() error {
+		var e error
+		switch {
+		case keys == nil:
+			c, e = ech.NewConn(context.Background(), tr)
+		case len(all) > split:
+			c, e = ech.NewConn(context.Background(), tr, ech.WithKeys(base), ech.WithKeys(all[split:]))
+		default:
+			c, e = ech.NewConn(context.Background(), tr, ech.WithKeys(base))
+		}
+		return e
+	})
+	interloper := func() {
+		if keys == nil {
+			return
+		}
+		// another connection of the same application: same base slice, another extra key
+		guard(func() error {
+			ech.NewConn(context.Background(), wire.New(stream, io.EOF), ech.WithKeys(base), ech.WithKeys(echKeys(c08FixedKey)))
+			return nil
+		})
+		for _, k := range base[:cap(base)][split:] {
+			if k.Config != nil || k.PrivateKey != nil {
+				o.Err2 += "|NewConn wrote into the spare capacity of the caller's key slice"
+			}
+		}
+	}
 	o.Err1 = errClass(err)
 	if err != nil {
 		o.Alert, _ = tr.Snapshot()
@@ -86,6 +121,7 @@ func drive(keys []*hello.Key, stream []byte, hrr []byte) connOutcome {
 		o.Err1 = "read1:" + errClass(e)
 		return o
 	}
+	interloper()
 	if hrr == nil {
 		return o
 	}
@@ -94,7 +130,7 @@ func drive(keys []*hello.Key, stream []byte, hrr []byte) connOutcome {
 		return o
 	}
 	e = guard(func() error { var e error; o.Rec2, e = readOneRecord(c); return e })
-	o.Err2 = errClass(e)
+	o.Err2 = errClass(e) + o.Err2
 	w, _ := tr.Snapshot()
 	o.Alert = w[min(len(w), len(hrr)):]
 	return o
@@ -115,7 +151,7 @@ func sameOutcome(a, b connOutcome) bool {
 
 func TestC09(t *testing.T) {
 	rec := ev.Get("C09")
-	rec.Rule("target key T, a hello sealed to T (C03 generator) and, in half of the cases, an HRR plus a well-formed retried hello; key lists of 1..4 entries drawn from {T, same-id keys with equal/different suite lists, other-id keys, same-id keys with another public name}, every position of T, T absent, two drawn orders. Metamorphic oracle: outcome(list) == outcome([T]) when T is in the list, == outcome([]) otherwise; outcome = (error class, accepted, first record, SNI, ALPN, second record/error, alert bytes). distinct = list shape; non-trivial = list holds another key with T's id")
+	rec.Rule("target key T, a hello sealed to T (C03 generator) and, in half of the cases, an HRR plus a well-formed retried hello; key lists of 1..4 entries drawn from {T, same-id keys with equal/different suite lists, other-id keys, same-id keys with another public name}, every position of T, T absent, two drawn orders. The list is handed over in two WithKeys options (the first a slice with spare capacity that another connection of the application reuses in between). Metamorphic oracle: outcome(list) == outcome([T]) when T is in the list, == outcome([]) otherwise; outcome = (error class, accepted, first record, SNI, ALPN, second record/error, alert bytes). distinct = list shape; non-trivial = list holds another key with T's id")
 	rec.Mandatory("T_first_sameid_neighbour", "T_middle_sameid_neighbour", "T_last_sameid_neighbour", "T_absent_sameid_present", "retry", "permuted")
 	rapid.Check(t, func(t *rapid.T) {
 		sc := drawSealed(t, false)
